@@ -37,6 +37,9 @@ type GenInput struct {
 	// two-runs stream: generate, change an interface of *another* package that the mocked interface embeds, generate
 	// again over the same tree: the mock follows the interface
 	TwoRuns bool `json:"twoRuns,omitempty"`
+	// sealed stream: the interface embeds an interface of another package that has unexported methods; the mock is
+	// written into that other package (the only place where it can be implemented): shape of the unexported methods
+	Sealed string `json:"sealed,omitempty"`
 	// names of interfaces that are also declared as function-local types (inside a function
 	// body / inside a function literal of a package-level initialiser)
 	LocalTypes []string `json:"localTypes"`
@@ -71,6 +74,12 @@ func (p c01) Generate(c *Ctx) []any {
 		g := GenInput{Template: []string{"testify", "matryer"}[i%2], Formatter: "gofmt", Options: map[string]any{}, TwoRuns: true}
 		g.Data.Stream = "two-runs"
 		g.Data.Placement = "inpkg"
+		out = append(out, g)
+	}
+	for i, sh := range []string{"marker", "params", "two"} {
+		g := GenInput{Template: []string{"testify", "matryer"}[i%2], Formatter: []string{"goimports", "gofmt", "noop"}[i%3], Options: map[string]any{}, Sealed: sh}
+		g.Data.Stream = "sealed"
+		g.Data.Placement = "foreign-declaring-pkg"
 		out = append(out, g)
 	}
 	if p.prop == "C02" {
@@ -351,6 +360,9 @@ func (p c01) Run(c *Ctx, raw json.RawMessage) Case {
 	}
 	if in.TwoRuns {
 		return c01TwoRuns(c, &in, dir)
+	}
+	if in.Sealed != "" {
+		return c01Sealed(c, &in, dir)
 	}
 	d := &in.Data
 	files := supportFiles()
@@ -682,6 +694,50 @@ func c01TwoRuns(c *Ctx, in *GenInput, dir string) Case {
 		compiles = step(2)
 	} else {
 		compiles = false
+	}
+	return Case{Impl: map[string]any{"compiles": compiles}, Oracle: or, Nontrivial: true, Tags: tags, NoModel: true}
+}
+
+// c01Sealed: the full method set includes unexported methods promoted from an embedded interface of another package.
+// Such an interface can only be implemented in that package, so the mock is written there (interface-level dir /
+// pkgname) and the assertion is made from a third package that sees both.
+func c01Sealed(c *Ctx, in *GenInput, dir string) Case {
+	sealed := map[string]string{
+		"marker": "\tseal()\n",
+		"params": "\tseal(depth int, tags ...string) (Leaf, error)\n",
+		"two":    "\tseal()\n\tmark(l *Leaf) error\n\tVisible() bool\n",
+	}[in.Sealed]
+	files := map[string]string{
+		"go.mod":         "module example.com/m\n\ngo 1.23\n\nrequire github.com/stretchr/testify v1.10.0\n\nrequire (\n\tgithub.com/davecgh/go-spew v1.1.1 // indirect\n\tgithub.com/pmezard/go-difflib v1.0.0 // indirect\n\tgithub.com/stretchr/objx v0.5.2 // indirect\n\tgopkg.in/yaml.v3 v3.0.1 // indirect\n)\n",
+		"core/core.go":   "package core\n\ntype Leaf struct{ N int }\n\ntype Sealed interface {\n" + sealed + "}\n",
+		"api/api.go":     "package api\n\nimport \"example.com/m/core\"\n\ntype Node interface {\n\tcore.Sealed\n\tName() string\n\tChildren(depth int, filter ...string) ([]core.Leaf, error)\n}\n\ntype Plain interface {\n\tGet(key string) (string, error)\n}\n",
+		"check/check.go": "package check\n\nimport (\n\t\"example.com/m/api\"\n\t\"example.com/m/core\"\n)\n\nvar _ api.Node = (*core.MockNode)(nil)\nvar _ core.Sealed = (*core.MockSealed)(nil)\n",
+	}
+	if b, err := os.ReadFile(filepath.Join(c.Src, "go.sum")); err == nil {
+		files["go.sum"] = string(b)
+	}
+	// matryer's ensure line would import api from core (a cycle): it is switched off for Node
+	skip := ""
+	if in.Template == "matryer" {
+		skip = "          template-data:\n            skip-ensure: true\n"
+	}
+	files[".mockery.yml"] = fmt.Sprintf("template: %s\nformatter: %s\nforce-file-write: true\nfilename: mocks_gen.go\npackages:\n  example.com/m/core:\n    interfaces:\n      Sealed:\n  example.com/m/api:\n    interfaces:\n      Plain:\n      Node:\n        config:\n          dir: core\n          pkgname: core\n          filename: mock_node.go\n%s", in.Template, in.Formatter, skip)
+	if err := writeFiles(dir, files); err != nil {
+		return Case{Oracle: fail("harness", "%v", err)}
+	}
+	tags := []string{"tmpl-" + in.Template, "stream-sealed", "sealed-" + in.Sealed}
+	res := c.runMockery(dir, nil, nil)
+	if res.Panicked {
+		return Case{Impl: map[string]any{"panic": true}, Oracle: fail("panic", "mockery panicked: %s", lastLines(res.Stderr, 6)), Tags: tags, NoModel: true}
+	}
+	or := Oracle{OK: true}
+	compiles := true
+	if res.Exit != 0 {
+		compiles = false
+		or = fail("does-not-compile", "mockery failed: %s %s", formatErrLine(res), lastLines(res.Stderr, 1))
+	} else if out, err := runGo(dir, "build", "./..."); err != nil {
+		compiles = false
+		or = fail("not-assignable", "the mock written into the package that declares the unexported methods (template %s, shape %s) does not implement the interface: %s", in.Template, in.Sealed, lastLines(strings.ReplaceAll(out, dir, ""), 6))
 	}
 	return Case{Impl: map[string]any{"compiles": compiles}, Oracle: or, Nontrivial: true, Tags: tags, NoModel: true}
 }
